@@ -89,8 +89,16 @@ func locOrder(c *Ctx, a *flAgg) {
 		for b := range l.Body {
 			for _, in := range b.Instrs {
 				if st, ok := in.(*ssa.Store); ok {
-					if _, isIdx := st.Addr.(*ssa.IndexAddr); isIdx {
+					if ia, isIdx := st.Addr.(*ssa.IndexAddr); isIdx {
 						swaps++
+						// the mirror index written as (invariant) - i instead of a second cursor
+						if bo, ok := ia.Index.(*ssa.BinOp); ok && bo.Op == token.SUB {
+							if ph, ok := bo.Y.(*ssa.Phi); ok && ph.Block() == l.Header {
+								if xi, ok := bo.X.(ssa.Instruction); !ok || !l.Body[xi.Block()] {
+									down = true
+								}
+							}
+						}
 					}
 				}
 			}
@@ -115,20 +123,31 @@ func locProbe(c *Ctx, a *flAgg) {
 	}
 	exprHome = fn.Pkg.Pkg
 	var inner *loopInfo
-	for _, l := range naturalLoops(fn) {
-		// the loop whose body calls isRootedIn twice
-		n := 0
-		for b := range l.Body {
-			for _, in := range b.Instrs {
-				if call, ok := in.(*ssa.Call); ok {
-					if cal := call.Call.StaticCallee(); cal != nil && cal.Name() == "isRootedIn" {
-						n++
+	// the loop whose body calls isRootedIn twice, in findRoots or in a helper it was extracted to
+	cands := []*ssa.Function{fn}
+	seenF := map[*ssa.Function]bool{fn: true}
+	for _, b := range blocksWithHelpers(fn) {
+		if !seenF[b.Parent()] {
+			seenF[b.Parent()] = true
+			cands = append(cands, b.Parent())
+		}
+	}
+	for _, cf := range cands {
+		for _, l := range naturalLoops(cf) {
+			n := 0
+			for b := range l.Body {
+				for _, in := range b.Instrs {
+					if call, ok := in.(*ssa.Call); ok {
+						if cal := call.Call.StaticCallee(); cal != nil && cal.Name() == "isRootedIn" {
+							n++
+						}
 					}
 				}
 			}
-		}
-		if n == 2 {
-			inner = l
+			if n == 2 {
+				inner = l
+				fn = cf
+			}
 		}
 	}
 	if inner == nil {
@@ -562,7 +581,7 @@ func locConsts(c *Ctx, a *flAgg) {
 		if f == nil {
 			return out
 		}
-		for _, b := range f.Blocks {
+		for _, b := range blocksWithHelpers(f) {
 			for _, in := range b.Instrs {
 				var ops []*ssa.Value
 				for _, op := range in.Operands(ops) {
